@@ -325,6 +325,8 @@ def _streams_case(ctx, rng, pstreams, flw, ds, shape, seq):
         fs = []
         if a["topo"] != [1]:
             fs.append({"kind": "spec", "what": "cell order handed to streams is not downstream-first (C03 hypothesis)"})
+        if a["covers"] != [1]:
+            fs.append({"kind": "spec", "what": "cell order handed to streams does not contain every stream cell (C03 hypothesis of streams_model_ok)"})
         if a["nup.ok"] != [1]:
             fs.append({"kind": "model", "what": "Lean upstreamCount differs from the declarative inflow count nupM on a valid cell"})
         if a["closed"] != [1 if closed else 0]:
